@@ -160,6 +160,17 @@ _add("C09",
      replace_text=[(">= 2 remaining pixels per axis", ">= 1 remaining pixel per axis")],
      note="data_resolution_and_offset (label arithmetic, incl. the fallback resolution used only for single-element axes) is verified as a root of this property too")
 
+_add("C02",
+     text="State / history independence of views: every view-changing operation on a receiver whose footprint is already cached returns a GeoBox that does not carry that cached footprint (lemma over 19 operations, symbolic grid).")
+_add("C01",
+     text="CRS.to_epsg caches exactly pyproj's default-confidence identification (lemma over a recording stand-in): the code CRS.__eq__'s fast path compares is the one the equivalence assumption is about.")
+_add("C04",
+     note="BlockAssembler samples include fills the blocks' dtype cannot hold (-1 on uint8, NaN on int16) and Y/X windows whose extent equals the length of a non-spatial axis")
+_add("C13",
+     note="... and reprojection onto the source's own grid with another destination nodata (default chunking)")
+_add("C15",
+     note="round trips include whole blocks of genuine zeros beside a non-zero nodata, written window by window")
+
 NA = {}
 ALL = [f"C{i:02d}" for i in range(1, 21)]
 
